@@ -244,15 +244,21 @@ def lexIdentPath (K : KwTable) (s : List Char) : Option (List (List Char)) := id
 
 /-! ## variables, parameters -/
 
-/-- `[a-zA-Z_.$]+` (ASCII reading of the class; `re.fullmatch` without IGNORECASE) -/
-def isPlainVarName (v : List Char) : Bool :=
-  v != [] && v.all (fun c => ('a' ≤ c && c ≤ 'z') || ('A' ≤ c && c ≤ 'Z') || c = '_' || c = '.' || c = '$')
+/-- `[a-zA-Z_.$]` without IGNORECASE (the printer's `re.fullmatch(r'[a-zA-Z_.$]+', value)`) -/
+def isVarCharA (c : Char) : Bool := c.isAlpha || c = '_' || c = '.' || c = '$'
 
-/-- `Variable.get_string` (since /repo 6a738d8: a name that is not `[a-zA-Z_.$]+` is printed quoted, with the first of
-back-quote, double quote, single quote that does not occur in it) -/
+/-- the name can be printed bare -/
+def varPlain (v : List Char) : Bool := v != [] && v.all isVarCharA
+
+/-- quote chosen for a name that is not plain: `` ` `` unless the name contains one, then `"`, then `'` -/
+def varQuote (v : List Char) : Char :=
+  if !v.contains '`' then '`' else if !v.contains '"' then '"' else '\''
+
+/-- `Variable.get_string` (ast/variable.py since /repo 6a738d8): sigil, then the name bare if it fully matches
+`[a-zA-Z_.$]+`, else between quotes -/
 def variableToString (isSystem : Bool) (v : List Char) : List Char :=
-  let q : Char := if !v.contains '`' then '`' else if !v.contains '"' then '"' else '\''
-  (if isSystem then ['@', '@'] else ['@']) ++ (if isPlainVarName v then v else q :: v ++ [q])
+  (if isSystem then ['@', '@'] else ['@']) ++
+    (if varPlain v then v else varQuote v :: v ++ [varQuote v])
 
 /-- `Parameter.get_string` (since /repo fa4fc42: the positional placeholder prints as written) -/
 def parameterToString (v : List Char) : List Char := if v = ['?'] then ['?'] else ':' :: v
